@@ -34,6 +34,12 @@ func runLedgerConc(p *Plan, tape *simrt.Tape, opt RunOpt) *RunOut {
 	d.Ledger = newLedger()
 	d.Ledger.pmax = uint64(p.Cfg.PrimaryFile)
 	d.Ledger.concurrent = true
+	if p.X["reloc"] == 1 {
+		// GC relocates records while writers run: the harness cannot derive the
+		// expected multiset from what it saw, so the structural form of the
+		// property is checked instead (CheckLeaks)
+		d.Ledger.exact = false
+	}
 	d.Ledger.installHook(fs)
 	cs := &concState{p: p, d: d, hists: make([][]HistOp, len(p.Clients)+1), ledger: true}
 	w, res := world(p, tape, fs, opt, nil, func() {
@@ -65,6 +71,7 @@ func runLedgerConc(p *Plan, tape *simrt.Tape, opt RunOpt) *RunOut {
 			return
 		}
 		d.CheckLedger("after all writers finished, Close and reopen")
+		d.CheckLeaks("after all writers finished, Close and reopen")
 		if d.Viol != nil {
 			return
 		}
@@ -73,6 +80,7 @@ func runLedgerConc(p *Plan, tape *simrt.Tape, opt RunOpt) *RunOut {
 		d.PrimaryGC(&Op{K: "pgc", A: 101})
 		d.checkBatchesApplied("after two final GC cycles")
 		d.CheckLedger("after a final GC cycle")
+		d.CheckLeaks("after a final GC cycle")
 		if d.Viol != nil {
 			return
 		}
@@ -307,6 +315,64 @@ func (d *Driver) CheckLedger(where string) {
 	}
 }
 
+// CheckLeaks is the structural form of "every superseded location is recorded":
+// at a quiescent point (flushed, no call in progress) every complete primary
+// record that is not marked deleted is either the current location of a key or
+// recorded on the freelist (file, or a batch handed over to GC). A record that
+// is neither can never be reclaimed. It does not depend on what the harness saw
+// during the run, so it also holds when GC relocates records under the writers.
+func (d *Driver) CheckLeaks(where string) {
+	l := d.Ledger
+	if l == nil || d.Viol != nil || d.Cfg.Primary != "multihash" {
+		return
+	}
+	fs := fsOf()
+	files := fs.Files()
+	recorded := map[locKey]bool{}
+	for k := range l.batches {
+		recorded[k] = true
+	}
+	for _, name := range []string{indexPath + ".free", indexPath + ".free.gc"} {
+		if data, ok := files[name]; ok {
+			for _, e := range parseFreeList(data) {
+				recorded[locKey{e.Off, e.Size}] = true
+			}
+		}
+	}
+	current := map[locKey]bool{}
+	for i := range d.P.Keys {
+		if blk, found, err := d.St.Index().Get(d.P.Keys[i].Digest); err == nil && found {
+			current[lk(blk)] = true
+		}
+	}
+	pmax := uint64(d.Cfg.PrimaryFile)
+	pf := numberedFiles(files, dataPath)
+	nums := make([]uint32, 0, len(pf))
+	for n := range pf {
+		nums = append(nums, n)
+	}
+	sort.Slice(nums, func(i, j int) bool { return nums[i] < nums[j] })
+	for _, n := range nums {
+		data := pf[n]
+		for pos := uint64(0); pos+4 <= uint64(len(data)); {
+			v := uint32(data[pos]) | uint32(data[pos+1])<<8 | uint32(data[pos+2])<<16 | uint32(data[pos+3])<<24
+			sz := v &^ delBit
+			if pos+4+uint64(sz) > uint64(len(data)) {
+				break // partial tail
+			}
+			if v&delBit == 0 {
+				k := locKey{uint64(n)*pmax + pos, sz}
+				if !current[k] && !recorded[k] {
+					d.fail("ledger/leaked-location", "%s: the primary record at %d (size %d, file %d) is intact, is not the current location of any key, and is neither on the freelist nor in any batch handed to GC: it stopped being current without being recorded and can never be reclaimed", where, k.Off, k.Size, n)
+					return
+				}
+			}
+			pos += 4 + uint64(sz)
+		}
+	}
+	d.cprobe("leak-check")
+}
+
 // checkBatchesApplied: after a primary GC cycle that ran to completion, every
 // entry of every batch handed over so far must have been applied: the record is
 // marked deleted, or no longer exists (truncated tail / unlinked file).
@@ -433,8 +499,15 @@ func genC13Conc(seed uint64, tier string) *Plan {
 	for i := 0; i < 2+r.Intn(4); i++ {
 		fl = append(fl, Op{K: "sleep", A: 1 + r.Intn(1500)}, Op{K: "flush"})
 	}
+	thr := 101
+	if r.Chance(0.4) {
+		// relocating GC under the writers (low-use threshold 0: every file with
+		// a busy record qualifies)
+		thr = []int{0, 0, 20, 60}[r.Intn(4)]
+		p.X["reloc"] = 1
+	}
 	for i := 0; i < 2+r.Intn(6); i++ {
-		g = append(g, Op{K: "sleep", A: 1 + r.Intn(1500)}, Op{K: "pgc", A: 101})
+		g = append(g, Op{K: "sleep", A: 1 + r.Intn(1500)}, Op{K: "pgc", A: thr})
 	}
 	p.Clients = append(p.Clients, fl, g)
 	p.X["writers"] = nw
